@@ -151,4 +151,111 @@ theorem layout_refines_asm_includes_partial {num : Nat → Bytes → Nat} (hinj 
             rw [Layout.layout_eq p (by rw [hp1]; simp)]
             exact hp2
 
+/-! ### non-vacuity -/
+
+/-- a decidable form of `LocalProject` -/
+def localProjectB (fs : Bytes → Option Bytes) : Nat → Bytes → Bytes → Bool
+  | 0, _, _ => true
+  | fuel + 1, path, data =>
+    match parseFile data with
+    | .ok (els, _) => els.all fun el => okInc el && plainEl el &&
+        match incTarget fs path el with
+        | some (p', d') => localProjectB fs fuel p' d'
+        | none => true
+    | .stop _ => true
+
+theorem localProject_of_B (fs : Bytes → Option Bytes) : ∀ (fuel : Nat) (path data : Bytes),
+    localProjectB fs fuel path data = true → LocalProject fs fuel path data := by
+  intro fuel
+  induction fuel with
+  | zero => intro _ _ _; trivial
+  | succ fuel ih =>
+    intro path data h els perr hp el hel
+    simp only [localProjectB, hp, List.all_eq_true, Bool.and_eq_true] at h
+    obtain ⟨⟨h1, h2⟩, h3⟩ := h el hel
+    refine ⟨h1, h2, fun p' d' ht => ih p' d' ?_⟩
+    rw [ht] at h3
+    exact h3
+
+/-- a numbering of (file instance, name): the instance in unary in front of the name, the byte string read in
+bijective base 256 -/
+def exCode : Bytes → Nat
+  | [] => 0
+  | x :: r => x.toNat + 1 + 256 * exCode r
+
+theorem exCode_inj : ∀ a b : Bytes, exCode a = exCode b → a = b
+  | [], [], _ => rfl
+  | [], y :: s, h => by simp only [exCode] at h; omega
+  | x :: r, [], h => by simp only [exCode] at h; omega
+  | x :: r, y :: s, h => by
+    simp only [exCode] at h
+    have hx := x.toNat_lt
+    have hy := y.toNat_lt
+    have h1 : x.toNat = y.toNat := by omega
+    have h2 : exCode r = exCode s := by omega
+    rw [exCode_inj r s h2, UInt8.toNat_inj.mp h1]
+
+def exNum2 : Nat → Bytes → Nat := fun i b => exCode (List.replicate i 1 ++ 0 :: b)
+
+theorem exNum2_inj : NumInj exNum2 := by
+  intro i j a b h
+  have h' := exCode_inj _ _ h
+  clear h
+  induction i generalizing j with
+  | zero =>
+    cases j with
+    | zero => simp only [List.replicate_zero, List.nil_append, List.cons.injEq, true_and] at h'; exact ⟨rfl, h'⟩
+    | succ j => simp [List.replicate_succ] at h'
+  | succ i ih =>
+    cases j with
+    | zero => simp [List.replicate_succ] at h'
+    | succ j =>
+      simp only [List.replicate_succ, List.cons_append, List.cons.injEq, true_and] at h'
+      obtain ⟨e1, e2⟩ := ih j h'
+      exact ⟨by rw [e1], e2⟩
+
+/-- the project: `m` = `.addr 16; B x; .include "i"; x:` and `i` = `.du16 y + 1; y:` — the branch in the main file
+refers forward across the included file (whose two bytes move the label), the included file has a forward reference
+of its own -/
+def exMainText : Bytes := bytesOf ".addr 16;\nB x;\n.include \"i\";\nx:\n"
+def exIncText : Bytes := bytesOf ".du16 y + 1;\ny:\n"
+def exFs : Bytes → Option Bytes := fun p =>
+  if p = bytesOf "m" then some exMainText else if p = bytesOf "i" then some exIncText else none
+
+set_option maxRecDepth 100000 in
+theorem exProject_local : LocalProject exFs maxDepth (bytesOf "m") exMainText :=
+  localProject_of_B _ _ _ _ (by decide +kernel)
+
+set_option maxRecDepth 100000 in
+/-- `Asm.run` on the project: success, no diagnostic, image `00 E0` (`B` to 20) `15 00` (`y + 1` = 21) at 16 -/
+theorem exProject_run : (match run exFs (bytesOf "m") with
+    | .done o => o.success && o.diags.isEmpty && o.image == [(16, [0x00, 0xE0, 0x15, 0x00])]
+    | _ => false) = true := by decide +kernel
+
+/-- the hypotheses of `layout_refines_asm_includes_partial` hold of the project, so its conclusion does -/
+example : ∃ o, run exFs (bytesOf "m") = .done o ∧ o.success = true ∧
+    ∃ (els : List Element) (perr : Option ParseErr) (p : List Layout.Stmt) (E : Layout.Env) (t : Table) (n : Nat),
+      parseFile exMainText = .ok (els, perr) ∧ EnvRel (exNum2 0) t E ∧
+      FlatEls exNum2 exFs encoder E 0 (bytesOf "m") t 1 none els p n ∧ (∀ s ∈ p, s.wf = true) ∧
+      (∃ img', Layout.Ref.pass2 none [] p = some img' ∧ ∀ a, Map.abs o.image a = img'.get a) := by
+  have hr := exProject_run
+  cases hrun : run exFs (bytesOf "m") with
+  | done o =>
+    rw [hrun] at hr
+    simp only [Bool.and_eq_true] at hr
+    obtain ⟨els, perr, p, E, t, n, h1, h2, h3, h4, h5, _⟩ :=
+      layout_refines_asm_includes_partial exNum2_inj exFs (bytesOf "m") exMainText rfl exProject_local o hrun hr.1.1
+    exact ⟨o, rfl, hr.1.1, els, perr, p, E, t, n, h1, h2, h3, h4, h5⟩
+  | noMain => rw [hrun] at hr; cases hr
+  | panic => rw [hrun] at hr; cases hr
+  | fuel => rw [hrun] at hr; cases hr
+  | loop => rw [hrun] at hr; cases hr
+
+/-- the flattened program of the project (`x` of the main file = symbol 1, `y` of the included file = symbol 2) and
+its reference layout: the image `Asm.run` produces -/
+example : Layout.Ref.layout [.addr 16, .emit 2 [1] [0x00, 0xE0], .emit 2 [2] [0x15, 0x00], .label 2, .label 1] =
+      some [(18, 0x15), (19, 0x00), (16, 0x00), (17, 0xE0)] ∧
+    Layout.Ref.pass1 none [] [.addr 16, .emit 2 [1] [0x00, 0xE0], .emit 2 [2] [0x15, 0x00], .label 2, .label 1] =
+      some [(1, 20), (2, 20)] := ⟨by rfl, by rfl⟩
+
 end Trion.Asm
